@@ -62,6 +62,39 @@ fn lab<T: Label>(r: Result<Option<&T>, String>) -> Value {
 	}
 }
 
+/// Other ways of consuming an iterator positioned by `mk`: nth(1), and the remaining elements drained through
+/// `fold` (for_each), `try_fold` (all) and `collect` -- all three must agree, else the disagreement is reported.
+/// the splits at which the remainder is drained (all of them for small windows; the table says "skip" elsewhere)
+fn drain_here(n: u64, k: u64) -> bool {
+	n <= 12 || k <= 2 || k + 2 >= n
+}
+
+fn drains<'a, T: Label + 'a, I: Iterator<Item = &'a T>>(full: bool, mk: impl Fn() -> I) -> (Value, Value) {
+	let nth1 = lab(catch(|| mk().nth(1)));
+	if !full {
+		return (nth1, json!(["skip"]));
+	}
+	let a = catch(|| {
+		let mut v = Vec::new();
+		mk().for_each(|x| v.push(x.id()));
+		v
+	});
+	let b = catch(|| {
+		let mut v = Vec::new();
+		let _ = mk().all(|x| {
+			v.push(x.id());
+			true
+		});
+		v
+	});
+	let c = catch(|| mk().map(Label::id).collect::<Vec<u64>>());
+	let rest = match (a, b, c) {
+		(Ok(a), Ok(b), Ok(c)) if a == b && b == c => json!(a),
+		(a, b, c) => json!({"for_each": a.ok(), "all": b.ok(), "collect": c.ok()}),
+	};
+	(nth1, rest)
+}
+
 /// (private) index of the oldest element, as exported by Serialize
 fn ser_index<T: Label>(w: &Window<T>) -> u64 {
 	serde_json::to_value(w).unwrap()["index"].as_u64().unwrap()
@@ -90,7 +123,14 @@ pub fn observe<T: Label>(w: &Window<T>) -> Value {
 		let count = b.count() as u64;
 		let last = lab(catch(|| c.last()));
 		let h = if hint.1 == Some(hint.0) && len == hint.0 as u64 && count == len { json!(len) } else { json!([hint.0, hint.1, len, count]) };
-		iter.push(json!({"hint": h, "last": last, "nxt": nxt}));
+		let (nth1, rest) = drains(drain_here(n, k), || {
+			let mut it = w.iter();
+			for _ in 0..k {
+				let _ = it.next();
+			}
+			it
+		});
+		iter.push(json!({"hint": h, "last": last, "nxt": nxt, "nth1": nth1, "rest": rest}));
 
 		let mut a = w.iter_rev();
 		let mut b = w.iter_rev();
@@ -106,7 +146,14 @@ pub fn observe<T: Label>(w: &Window<T>) -> Value {
 		let count = b.count() as u64;
 		let last = lab(catch(|| c.last()));
 		let h = if hint.1 == Some(hint.0) && len == hint.0 as u64 && count == len { json!(len) } else { json!([hint.0, hint.1, len, count]) };
-		rev.push(json!({"hint": h, "last": last, "nxt": nxt}));
+		let (nth1, rest) = drains(drain_here(n, k), || {
+			let mut it = w.iter_rev();
+			for _ in 0..k {
+				let _ = it.next();
+			}
+			it
+		});
+		rev.push(json!({"hint": h, "last": last, "nxt": nxt, "nth1": nth1, "rest": rest}));
 	}
 	let buf: Vec<u64> = w.as_slice().iter().map(Label::id).collect();
 	json!({
@@ -132,7 +179,16 @@ fn compare_obs(out: &mut Out, ty: &str, via: &str, row: &Value, obs: &Value) {
 			continue;
 		}
 		let key = format!("Window:{f}:{via}");
-		out.cmp(&key, || json!({"type": ty, "n": row["n"], "p": row["p"], "field": f}), &row[f], &obs[f]);
+		let mut act = obs[f].clone();
+		if f == "iter" || f == "rev" {
+			// the table carries the drained remainder only for some splits
+			for (k, e) in row[f].as_array().unwrap().iter().enumerate() {
+				if e["rest"] == json!(["skip"]) {
+					act[k]["rest"] = json!(["skip"]);
+				}
+			}
+		}
+		out.cmp(&key, || json!({"type": ty, "n": row["n"], "p": row["p"], "field": f}), &row[f], &act);
 	}
 }
 
@@ -216,8 +272,24 @@ fn iter_event<T: Label>(name: &str, h: usize, w: &Window<T>, k: u64, rev: bool) 
 			let nxt = lab(catch(|| a.next()));
 			let count = b.count();
 			let last = lab(catch(|| c.last()));
+			let pos = || {
+				let mut it = $mk;
+				for _ in 0..k {
+					let _ = it.next();
+				}
+				it
+			};
+			let nth1 = lab(catch(|| pos().nth(1)));
+			let mut r1 = Vec::new();
+			pos().for_each(|x| r1.push(x.id()));
+			let mut r2 = Vec::new();
+			let _ = pos().all(|x| {
+				r2.push(x.id());
+				true
+			});
+			let r3: Vec<u64> = pos().map(Label::id).collect();
 			json!({"ev": name, "h": h, "k": k, "outs": outs, "hint": hint.0, "hint_hi": hint.1.map_or(-1i64, |x| x as i64),
-				"count": count, "last": last, "nxt": nxt})
+				"count": count, "last": last, "nxt": nxt, "nth1": nth1, "rest": r1, "rest2": r2, "rest3": r3})
 		}};
 	}
 	if rev {
